@@ -24,7 +24,7 @@ func c06Cfg() *DeclCfg {
 func c06Run(c *Ctx) {
 	r := c.R
 	d := GenDecl(c.Sub("d"), c06Cfg())
-	if c.K%13 == 9 {
+	if inHistTail(c, 42000, 1500000) {
 		// a required option registered after the parser was first used is enforced as well
 		hc := c06Cfg()
 		hc.PPosReq = 0 // (positional requirements are not state-free on a re-used parser, see hist.go)
@@ -175,11 +175,11 @@ func init() {
 		Cases: func(tier string) int64 {
 			switch tier {
 			case "thorough":
-				return 1500000
+				return 1500000 + 125000 // + history cases
 			case "race":
 				return 0
 			}
-			return 42000
+			return 42000 + 3500 // + history cases
 		},
 		Run:           c06Run,
 		MinNontrivial: 300,
